@@ -30,11 +30,22 @@ var impls = map[int]implFn{}
 
 // Do runs the implementation on (tag,args), writes the case line and returns the outputs.
 // nontrivial says whether the case counts towards distinct_nontrivial.
-func (w *W) Do(tag int, args []int64, nontrivial bool) []int64 {
-	outs := impls[tag](args)
+func (w *W) Do(tag int, args []int64, nontrivial bool) (outs []int64) {
+	defer func() {
+		if r := recover(); r != nil {
+			// the implementation panicked on this input: record it as the case's output
+			outs = []int64{PANIC, PANIC, PANIC, PANIC, PANIC, PANIC, PANIC, PANIC, PANIC, PANIC, PANIC, PANIC, PANIC, PANIC, PANIC, PANIC, PANIC, PANIC, PANIC, PANIC}
+			w.count("PANIC")
+			w.Case(tag, args, outs[:1], nontrivial)
+		}
+	}()
+	outs = impls[tag](args)
 	w.Case(tag, args, outs, nontrivial)
 	return outs
 }
+
+// PANIC is the output recorded for a case on which the implementation panicked.
+const PANIC = -777
 
 func (w *W) count(key string) { w.hist[key]++ }
 
